@@ -100,8 +100,12 @@ class Run(object):
                           sort_keys=True, default=repr)
         h = hashlib.sha1(blob.encode()).hexdigest()[:12]
         path = os.path.join(REPLAY_DIR, "%s-%s.json" % (self.pid, h))
-        with open(path, "w") as f:
-            f.write(blob)
+        # at most 200 replay files per run (every violation is still counted and reported)
+        if len(self.violations) < 200:
+            with open(path, "w") as f:
+                f.write(blob)
+        else:
+            path = self.violations[-1][1]
         if len(self.violations) < 5:
             print("VIOLATION property=%s replay=%s" % (self.pid, path))
             print("  detail: %s" % json.dumps(sig, default=repr)[:600])
